@@ -27,6 +27,18 @@ def checks_of(res):
     return out
 
 
+def strip_labels(out):
+    if len(out) < 2 or not isinstance(out[1], list):
+        return out
+    return [out[0], [[[u, sorted(e[0] for e in es)] for u, es in r] for r in out[1]]]
+
+
+def proj_c08(out):
+    if len(out) < 2 or not isinstance(out[1], list):
+        return out
+    return [out[0], len(out[1]), out[1][-1] if out[1] else []]
+
+
 class Component:
     name = ""
 
@@ -102,7 +114,8 @@ class SimComponent(Component):
         model = res["model"][0]
         wf = bool(res["wf"][0]) if "wf" in res else True
         out = impl["out"]
-        agree = jsonable(model) == jsonable(out)
+        jm, jo = jsonable(model), jsonable(out)
+        agree = {"full": jm == jo, "occ": strip_labels(jm) == strip_labels(jo), "c08": proj_c08(jm) == proj_c08(jo)}
         tag = str(out[0])
         ncyc = len(out[1]) if len(out) > 1 and isinstance(out[1], list) else 0
         nun = sum(len(x) for x in impl["proc"])
@@ -112,7 +125,7 @@ class SimComponent(Component):
         return {
             "agree": agree,
             "in_domain": wf,
-            "diff": None if agree else {"model": jsonable(model), "impl": jsonable(out)},
+            "diff": None if agree["full"] else {"model": jm, "impl": jo},
             "checks": checks_of(res),
             "tags": tags,
             "nontrivial": wf and len(impl["prog"]) >= 2 and ncyc >= 3,
@@ -128,8 +141,9 @@ class SimComponent(Component):
 
 def std_report(case, agree, model, impl, checks=None, tags=(), nontrivial=True, sample=None, dig=None,
                in_domain=True, extra=None):
-    rep = {"agree": bool(agree), "in_domain": in_domain,
-           "diff": None if agree else {"model": jsonable(model), "impl": jsonable(impl)},
+    allok = all(agree.values()) if isinstance(agree, dict) else bool(agree)
+    rep = {"agree": agree if isinstance(agree, dict) else bool(agree), "in_domain": in_domain,
+           "diff": None if allok else {"model": jsonable(model), "impl": jsonable(impl)},
            "checks": checks or {}, "tags": list(tags), "nontrivial": nontrivial,
            "digest": dig or digest(jsonable(case)), "sample": sample if sample is not None else jsonable(case),
            "case": case, "impl": jsonable(impl)}
@@ -458,21 +472,25 @@ class LoaderComponent(Component):
         m = jsonable(res["model"][0])
         i = jsonable(impl["out"])
         checks = checks_of(res)
+        acc = {"acc": str(m[0]) == str(i[0])}
         if str(i[0]) == "ok":
-            agree = m == i[:2]
+            exact = m == i[:2]
+            canon = str(m[0]) == "ok" and canon_proc(m[1]) == canon_proc(i[1])
+            agree = {"exact": exact, "canon": canon, "err": str(m[0]) == "ok", **acc}
             outcome = "accepted"
         else:
             cls = i[1][0]
             outcome = cls
             msg = i[2]
             if str(m[0]) != "err" or m[1][0] != cls:
-                agree = False
+                same = False
             elif cls == "DeadInputError":
-                agree = i[1][1] in m[1][1]                       # any of the dead ports (set iteration order)
+                same = i[1][1] in m[1][1]                        # any of the dead ports (set iteration order)
             elif cls == "PathLockError":
-                agree = i[1][1:4] == m[1][1:4]
+                same = i[1][1:4] == m[1][1:4]
             else:
-                agree = i[1] == m[1]
+                same = i[1] == m[1]
+            agree = {"exact": same, "canon": str(m[0]) == "err", "err": same, **acc}
             # C11: the message contains the culprit fields
             flds = [f for f in i[1][1:] if not isinstance(f, list)]
             ok = all(str(f) in msg for f in flds)
